@@ -450,6 +450,12 @@ func (c *Ctx) bigText(x *Term, base int, upper bool) *StrVal {
 		}
 		return c.str(t)
 	}
+	if !c.Ex.Havoc["int:text"] {
+		// symbolic text is opt-in (//verif:havoc int:text): it forks on the sign and on the number of
+		// digits, which only the harnesses about the text of integers want; elsewhere the text of a
+		// symbolic integer is an opaque placeholder
+		return c.str("<int>")
+	}
 	neg, _ := c.bigSign(x)
 	isNeg := c.decide(neg)
 	ax := x
